@@ -244,7 +244,7 @@ func ruleOptions(c *Ctx, prefix string) {
 		{Pkg: "searchdomains", Fn: "domainSearchListHandler4", RespIdx: 1, Rows: []optRow{{Name: "searchdomains v4", Code: k4("OptionDNSDomainSearchList"), Gate: always, Global: []string{pp + "searchdomains.v4SearchList"}, Stop: &fa}}},
 		{Pkg: "searchdomains", Fn: "domainSearchListHandler6", RespIdx: 1, Rows: []optRow{{Name: "searchdomains v6", Code: k6("OptionDomainSearchList"), Gate: always, Global: []string{pp + "searchdomains.v6SearchList"}, Stop: &fa}}},
 		{Pkg: "staticroute", Fn: "Handler4", RespIdx: 1, Rows: []optRow{{Name: "staticroute", Code: k4("OptionClasslessStaticRoute"),
-			Gate:   func(st *State) int { v, _ := histFact(st, "lt", regexp.MustCompile(`^0$`)); return v },
+			Gate:   func(st *State) int { return histLenPos(st, regexp.MustCompile(`^len\(`+reQ(pp)+`staticroute\.routes\)$`)) },
 			Global: []string{pp + "staticroute.routes"}, Stop: &fa}}},
 		{Pkg: "leasetime", Fn: "Handler4", RespIdx: 1, Rows: []optRow{{Name: "lease_time", Code: k4("OptionIPAddressLeaseTime"),
 			Gate: func(st *State) int {
@@ -261,7 +261,7 @@ func ruleOptions(c *Ctx, prefix string) {
 				prl := k4("OptionParameterRequestList")
 				has, _ := histFact(st, "bool", regexp.MustCompile(`^\(`+reQ(pkgDHCP4)+`\.Options\)\.Has(@(?:[\w$]+·)?t\d+)?\(\$0\.Options,`+reQ(prl)+`\)$`))
 				lstNil, _ := histFact(st, "nil", regexp.MustCompile(`^\(\*`+reQ(pkgDHCP4)+`\.DHCPv4\)\.ParameterRequestList(@(?:[\w$]+·)?t\d+)?\(\$0\)$`))
-				lenPos, _ := histFact(st, "lt", regexp.MustCompile(`^0$`))
+				lenPos := histLenPos(st, regexp.MustCompile(`^len\(.*ParameterRequestList`))
 				member, _ := histFact(st, "bool", regexp.MustCompile(`^\(`+reQ(pkgDHCP4)+`\.OptionCodeList\)\.Has(@(?:[\w$]+·)?t\d+)?\(\(\*`+reQ(pkgDHCP4)+`\.DHCPv4\)\.ParameterRequestList(@(?:[\w$]+·)?t\d+)?\(\$0\),`+reQ(code)+`\)$`))
 				present := or3(has, not3(lstNil), lenPos)
 				return or3(member, and3(req, present))
